@@ -902,9 +902,12 @@ def build_near_valid(draw):
     """a valid generated workbook with 1-4 cells (or whole rows) overwritten from the vocabulary: reaches the code behind the header
     and type checks that pure soup rarely passes"""
     prof = dict(gen.PROFILES["broad"], max_depth=3, p_blank_row=0.05, text="plain", text_ctl=False, p_params=0.5, p_entities=0.15,
-                settings="some", p_external=0.1, p_table_list=0.05, p_or_other=0.15)
+                settings="some", p_external=0.15, p_table_list=0.05, p_or_other=0.15, p_osm=0.08, p_osm_self=0.4, p_extra_cols=0.3,
+                extra_col_names=["fields", "self", "kwargs", "type", "e1", "media", "control", "bind"])
     g = gen.G(draw, prof)
     form = gen.build_form(draw, prof, g=g)
+    if g.p("_", 0.1):
+        form.setdefault("settings", {})["flat"] = g.pick(["yes", "true"])     # legacy switch: whatever it does, it must not crash
     wb = model.to_workbook_dict(form)
     P = lambda x: g._u16() < x * 65536  # noqa: E731
     for _ in range(g.integer(1, 4)):
